@@ -131,7 +131,7 @@ class SimClock:
 
 
 class SimThread:
-    __slots__ = ("id", "sem", "thread", "local", "done", "prio", "last", "task_active", "killed", "quota")
+    __slots__ = ("id", "sem", "thread", "local", "done", "prio", "last", "task_active", "killed", "quota", "starts")
 
     def __init__(self, tid):
         self.id = tid
@@ -144,6 +144,7 @@ class SimThread:
         self.task_active = False
         self.killed = None
         self.quota = 0
+        self.starts = 0
 
 
 class Session:
@@ -284,6 +285,26 @@ class Session:
             self._record(t.id, t.local, nxt)
             self._switch(t, nxt)
 
+    def task_start(self, t):
+        """A worker has taken a task and is about to run it: it may be delayed here while others overtake it
+        (the only way tasks made of one atomic call - a system call, a NumPy call - can finish out of order)."""
+        t.starts = getattr(t, "starts", 0) + 1
+        key = "start%d" % t.starts
+        nxt = None
+        others = [u for u in self.threads if not u.done and u is not t]
+        if not others:
+            return
+        if self.script is not None:
+            want = self.script.get((t.id, key))
+            for u in others:
+                if u.id == want:
+                    nxt = u
+        elif self.strategy != "pct" and self.rng.random() < 0.35:
+            nxt = others[self.rng.randrange(len(others))]
+        if nxt is not None:
+            self._record(t.id, key, nxt)
+            self._switch(t, nxt)
+
     def _switch(self, t, nxt):
         self.switches += 1
         in_flight = sum(1 for u in self.threads if u.task_active and not u.done)
@@ -327,6 +348,7 @@ class Session:
                     def call(numbered_item):
                         number, item = numbered_item
                         self.tasks_run += 1
+                        self.task_start(t)
                         self.current_task.value = (map_no, number)
                         return func(*item) if star else func(item)
 
@@ -422,6 +444,7 @@ class Session:
                         self.tasks_run += 1
                         if self.after_return:
                             self.late_tasks += 1
+                        self.task_start(t)
                         self.current_task.value = (map_no, number)
                         return func(*item) if star else func(item)
 
